@@ -10,7 +10,7 @@ Writes <src dir>/<mK>.confirm.json.
 """
 import json, os, re, subprocess, sys
 
-WT = '/tmp/wt/confirm'
+WT = os.environ.get('CONFIRM_WT', '/tmp/wt/confirm')
 ENV = dict(os.environ, RUSTUP_TOOLCHAIN='1.88.0', CARGO_NET_OFFLINE='true')
 
 def sh(cmd, **kw):
@@ -19,7 +19,11 @@ def sh(cmd, **kw):
 def clean():
     sh('git checkout -- . && git clean -fdq -e target -e target-verif')
 
-def place(src, dest, register):
+def place(src, dest, register, append=None):
+    if append:
+        with open(os.path.join(WT, append), 'a') as f:
+            f.write('\n' + open(src).read() + '\n')
+        return
     os.makedirs(os.path.dirname(os.path.join(WT, dest)), exist_ok=True)
     sh('cp %s %s' % (src, os.path.join(WT, dest)))
     if register:
@@ -38,7 +42,8 @@ def run_demo(test_args):
 def run_suite(diff):
     # a change confined to the ethercrab crate cannot affect the tests of the wire/derive crates
     scope = '--workspace' if 'ethercrab-wire' in open(diff).read() else '-p ethercrab'
-    p = sh('cargo test %s --no-fail-fast --offline 2>&1' % scope)
+    # doc tests are not part of the pinned baseline list and dominate the build time
+    p = sh('cargo test %s --lib --tests --no-fail-fast --offline 2>&1' % scope)
     out = p.stdout
     failing = sorted(set(re.findall(r"to rerun pass `([^`]*)`", out)))
     still = []
@@ -56,6 +61,11 @@ def run_suite(diff):
 def main():
     a = sys.argv[1:]
     register = None
+    append = None
+    if '--append' in a:
+        i = a.index('--append')
+        append = a[i + 1]
+        a = a[:i] + a[i + 2:]
     if '--register' in a:
         i = a.index('--register')
         register = (a[i + 1], a[i + 2])
@@ -64,7 +74,7 @@ def main():
     test_args = ' '.join(a[3:])
     res = {'mutant': m, 'demo_dest': dest, 'test_args': test_args}
     clean()
-    place('%s/%s.demo.rs' % (src, m), dest, register)
+    place('%s/%s.demo.rs' % (src, m), dest, register, append)
     res['demo_on_head'] = run_demo(test_args)
     ap = sh('git apply %s/%s.diff' % (src, m))
     res['applies'] = ap.returncode == 0
